@@ -93,7 +93,21 @@ def m_negative_source_with_rs(case, st, v=None):
     comps = st["comps"] if st else []
     if v and v.get("op") and any(c["name"] == v["op"] for c in comps) and not v["clause"].startswith("C03.Sweep") \
             and v["clause"] not in ("C03.NoNaN",):
-        return any(c["name"] == v["op"] and _src_neg_rs(c) for c in comps)
+        if any(c["name"] == v["op"] and _src_neg_rs(c) for c in comps):
+            return True
+        if v["clause"] == "C03.Finite":
+            # the diverging iteration of an F1 source fills the rows of everything it supplies with inf as well
+            by = {c["name"]: c for c in comps}
+            seen, front = set(), [v["op"]]
+            while front:
+                n = front.pop()
+                if n in seen or n not in by:
+                    continue
+                seen.add(n)
+                if _src_neg_rs(by[n]):
+                    return True
+                front += list(by[n]["par"])
+        return False
     return any(_src_neg_rs(c) for c in comps)
 
 
